@@ -66,9 +66,10 @@ def gen_enc(r, mode, nparams, flavour=""):
     case = dict(kind="enc", mode=mode, sleep_scale=r.choice([0.0, 0.03, 0.05, 0.08]), sleep_mult=r.randrange(1, 5))
     if mode == "custom":
         ps = []
+        one_at = r.randrange(nparams)
         for k, vec in enumerate(vecs):
             w = None if not vec else vec
-            if flavour == "one_list" and k == 0:
+            if flavour == "one_list" and (k == one_at or r.random() < 0.3):
                 w = 1
             ps.append(dict(w=w))
         ncols = sum(1 if p["w"] is None else p["w"] for p in ps)
@@ -85,9 +86,10 @@ def gen_enc(r, mode, nparams, flavour=""):
         case["first_sum"] = sum(first)
     else:
         ps = []
+        dup_at = r.randrange(nparams)
         for k, vec in enumerate(vecs):
             n = r.randrange(1, 5) if nparams > 1 else r.randrange(2, 6)
-            ps.append(dict(values=gen_values(r, vec, n, dup=(flavour == "dup" and k == 0),
+            ps.append(dict(values=gen_values(r, vec, n, dup=(flavour == "dup" and (k == dup_at or r.random() < 0.3)),
                                              sorted_=(r.random() < 0.3))))
         case.update(params=ps, defaults=[([r.randrange(0, 13) for _ in range(v)] if v else r.randrange(0, 13))
                                          for v in vecs])
@@ -127,6 +129,10 @@ def gen_encs(r, mode, pattern, vector="mix", share=True):
         j = k if (not share or r.random() < 0.6) else r.choice(cands)
         used.add((j, arg))
         layout.append([j, arg])
+    # model names are labels: rename them at random so that the keys are NOT listed in alphabetical order
+    ren = list(range(n))
+    r.shuffle(ren)
+    layout = [[ren[j], arg] for j, arg in layout]
     vecs = []
     for k in range(n):
         if vector == "none":
@@ -153,7 +159,8 @@ def gen_encs(r, mode, pattern, vector="mix", share=True):
         case.update(params=ps, table=rows, defaults=[(0 if p["w"] is None else [0] * p["w"]) for p in ps])
     else:
         cap = {1: 4, 2: 3, 3: 3, 4: 2}[n]
-        ps = [dict(values=gen_values(r, v, r.randrange(1, cap + 1), sorted_=(r.random() < 0.3))) for v in vecs]
+        ps = [dict(values=gen_values(r, v, r.randrange(1, cap + 1), sorted_=(r.random() < 0.3),
+                                     dup=(mode == "product" and r.random() < 0.2))) for v in vecs]
         if all(len(p["values"]) == 1 for p in ps):
             k = r.randrange(n)
             ps[k] = dict(values=gen_values(r, vecs[k], 2))
@@ -190,16 +197,15 @@ def gen_cases(ctx: Ctx):
     for mode in ("product", "custom", "sequential"):
         for npar in (1, 2, 3):
             plan.append((mode, npar, ""))
-    plan += [("product", 2, "dup"), ("custom", 2, "one_list"), ("sequential", 1, "vec")]
+    plan += [("product", 2, "dup"), ("custom", 2, "one_list"), ("sequential", 1, "vec"), ("product", 3, "dup"),
+             ("custom", 3, "one_list"), ("product", 1, "dup")]
     k = 0
     while len(cases) < ncorpus + n_enc:
         mode, npar, fl = plan[k % len(plan)] if k < 2 * len(plan) else (
-            r.choice(["product", "product", "custom", "sequential"]), r.randrange(1, 4), "")
+            r.choice(["product", "product", "custom", "sequential"]), r.randrange(1, 4), r.choice(["", "", "dup", "one_list"]))
         k += 1
         c = gen_enc(r, mode, npar, fl)
         c["scheds"] = pick_scheds(r, 2 if ctx.quick else 3)
-        if mode == "sequential" and npar >= 2 or fl in ("dup", "one_list"):
-            c["scheds"] = c["scheds"][:1]
         c["outputs"] = (k % 3 == 0)
         cases.append(c)
     # parameters whose short names collide (dimension names '<model>.<argument>'): every position pattern
